@@ -227,8 +227,8 @@ let explore k nn (scripts : (int * call) list) allowed_stops max_states =
   Hashtbl.iter (fun s () -> print_string ("!FG " ^ s ^ "\n")) viol
 
 (* ---- happens-before (vector clocks driven by the memory orders of the current source): random schedules of the
-   fine-grained model; at every callback of node n by thread t: for every agent X that left waiting(n) at its local
-   time k, t's clock knows X at least up to k ---- *)
+   fine-grained model; at every callback of node n by thread t (and at every return of quiescent_barrier): for every
+   agent X that left the waiting set at its local time k, t's clock knows X at least up to k ---- *)
 let hbcheck k nn (scripts : (int * call) list) nsched seed =
   let script_of t = List.filter_map (fun (x, c) -> if x = t then Some c else None) scripts in
   let rng = Random.State.make [| seed |] in
@@ -247,6 +247,13 @@ let hbcheck k nn (scripts : (int * call) list) nsched seed =
                for x = 0 to k - 1 do
                  match pre.hleft n (nat_of_int x) with
                  | Some kx -> if int_of_nat kx > int_of_nat (h'.hk.vc t' (nat_of_int x)) then incr viol
+                 | None -> ()
+               done
+             | WQbRet b ->
+               incr cbs;
+               for x = 0 to k - 1 do
+                 match pre.hleftq b (nat_of_int x) with
+                 | Some kx -> if int_of_nat kx > int_of_nat (h'.hk.vc b (nat_of_int x)) then incr viol
                  | None -> ()
                done
              | _ -> ()) evs;
